@@ -12,7 +12,7 @@ CHECKS = {
     "C01": ("exploration", "differential runs of the real calibrator (twin runs varying n_jobs/verbosity/folder/constructor seeds/fresh process), byte-equality oracle on recorded histories",
             "Byte-equality of the five history arrays and of the return value between a base run and its variants, on generated configurations; held = on the configurations listed in the evidence.",
             "third-party determinism (sklearn/xgboost/BLAS) trusted; RL limited to one session as the quantifier says", "DESIGN 4/C01"),
-    "C02": ("exploration", "runtime monitor on the real calibrate() loop: witness model + snapshots at every batch boundary, offline alignment/append-only oracle",
+    "C02": ("exploration", "runtime monitor on the real calibrate() loop: witness model + invocation log + snapshots at every batch boundary, offline alignment/append-only oracle",
             "Every recorded row is re-derived (sampler output, model re-run on decoded vector/seed/length, loss recomputed on a pristine copy) and every snapshot must be a prefix of the next.",
             "witness model encodes (theta, seed, N) in its output; loss copy taken before the run", "DESIGN 4/C02"),
     "C03": ("exploration", "always-on contract on BaseSampler.sample/sample_batch of all nine samplers driven directly over generated spaces and histories",
@@ -24,8 +24,8 @@ CHECKS = {
     "C05": ("exploration", "differential runs: segmented/restored run vs uninterrupted twin, byte-equality at every batch boundary",
             "All labelled cuts of n<=4 batches, sampled cuts beyond, for line-ups covering every stateful sampler.",
             "as C01", "DESIGN 4/C05"),
-    "C06": ("fault_enumeration", "crash-point enumeration of a real save: strace SIGKILL/ENOSPC injection per file-system syscall, sys.monitoring LINE failpoints, byte-prefix truncation; restore classified as error / previous / new / hybrid",
-            "Every enumerated crash point of the saves performed is restored and classified; hybrids outside the recorded crash windows are violations.",
+    "C06": ("fault_enumeration", "crash-point enumeration of a real save: strace SIGKILL/ENOSPC injection per file-system syscall, sys.monitoring LINE failpoints, byte-prefix truncation along the observed sequence of on-disk folder states (write order, temporary files and renames are recorded, not assumed); restore classified as error / previous / new / hybrid",
+            "Every enumerated crash point of the saves performed is restored and classified; every hybrid is a violation (no crash window is listed as a known finding any more).",
             "byte-prefix model of partial writes; ptrace available", "DESIGN 4/C06"),
     "C07": ("exploration", "reference-model monitor: independent implementations of the five published loss definitions evaluated next to compute_loss",
             "Agreement to 1e-9 relative (GSL 1e-12) with independent references over generated data and every option.",
@@ -37,15 +37,15 @@ CHECKS = {
             "Every batch over the calibrator's life is attributed to the sampler the scheduler prescribes, across splits and restores.",
             "cheap sampler classes (order, not numerics, is at stake)", "DESIGN 4/C09"),
     "C10": ("exploration", "controlled token-passing scheduler over the real RLScheduler/env/agent code (systematic interleavings with a preemption bound + random schedules) and free-running stress with sys.monitoring yield injection; sequential specification checked on the event log",
-            "All schedules within the preemption bound for 1-3 sessions x 1-3 batches plus random schedules; deadlock = no enabled thread.",
+            "All schedules within the preemption bound for 1-3 sessions x 0-3 batches (scheduling points before and after every queue put, at get/empty/flag/start/join), incl. sessions torn down by a failing batch, plus random schedules; deadlock = no enabled thread.",
             "the shim owns queue put/get, flag reads/writes, thread start/join; other primitives make the run inconclusive", "DESIGN 4/C10"),
-    "C11": ("fault_enumeration", "exception injection at every invocation index of model / loss / sampler in runs of <= 6 batches; history, thread set and reusability judged after the failure",
+    "C11": ("fault_enumeration", "exception injection (rotating exception classes, identity checked) at every invocation index of model / loss / sampler in runs of <= 6 batches; history, on-disk checkpoint, thread set and reusability judged after the failure; a hang is judged by which thread can still make progress",
             "Every invocation index of the runs performed is injected once; exhaustive for that finite space.",
             "with n_jobs>1 the fault is keyed on the seed value", "DESIGN 4/C11"),
     "C12": ("exploration", "scripted sampler subclass + executable model of the deduplication statement compared with the real BaseSampler.sample",
             "Request sizes, returned multiset and untouched rows equal the model's on generated scripts.",
             "which redraw lands on which repeat is latitude", "DESIGN 4/C12"),
-    "C13": ("exploration", "exact-arithmetic reference (Fraction radical inverse, 60-digit phi_d, independent sieve) beside the real halton()/samplers, draw log on the real generators",
+    "C13": ("exploration", "exact-arithmetic reference (Fraction radical inverse, 60-digit phi_d, independent sieve) beside the real halton()/samplers, draw log on the real generators, and a life-cycle monitor (own cursor) over draws, pickling, re-seeding and space changes on one sampler object",
             "Point-wise equality with the exact sequences for d 1-40 and start indices across [0, 2^16+2^12), continuity across batch splits.",
             "first emitted index accepted in [20, 2^16]", "DESIGN 4/C13"),
     "C14": ("exploration", "scripted-loss model driving the real calibrate(); batch-count oracle from the rounding rule; restore of the saving folder",
